@@ -436,8 +436,10 @@ class SymExec:
                             feas.append((b, None, None))
                             continue
                         prev = p.cond.get(atom)
-                        if prev is not None and not _compatible(prev, outcome):
-                            continue
+                        if prev is not None:
+                            outcome = _refine(prev, outcome)
+                            if outcome is None:
+                                continue
                         feas.append((b, atom, outcome))
                     if not feas:
                         self._finish(p, "infeasible", bb)
@@ -445,14 +447,10 @@ class SymExec:
                     # fork
                     for (b, atom, outcome) in feas[1:]:
                         q = p.clone()
-                        if atom is not None and atom not in q.cond:
-                            q.cond[atom] = outcome
-                            q.atoms.append((atom, outcome, bb))
+                        _record(q, atom, outcome, bb)
                         stack.append((q, b, bb))
                     b, atom, outcome = feas[0]
-                    if atom is not None and atom not in p.cond:
-                        p.cond[atom] = outcome
-                        p.atoms.append((atom, outcome, bb))
+                    _record(p, atom, outcome, bb)
                     came, bb = bb, b
                     continue
                 if k == "return":
@@ -546,6 +544,55 @@ class SymExec:
                 return l
             return self._mut_target(l, depth + 1)
         return None
+
+
+def _record(p, atom, outcome, bb):
+    """remember the outcome of a test on path p; a later, sharper outcome of the same test
+    (a second match on the same enum) replaces the earlier one"""
+    if atom is None:
+        return
+    if atom not in p.cond:
+        p.cond[atom] = outcome
+        p.atoms.append((atom, outcome, bb))
+    elif p.cond[atom] != outcome:
+        p.cond[atom] = outcome
+        p.atoms = [(a, (outcome if a == atom else o), b_) for (a, o, b_) in p.atoms]
+
+
+def _as_set(x):
+    if isinstance(x, tuple) and x and x[0] == "oneof":
+        return ("in", set(x[1]))
+    if isinstance(x, tuple) and x and x[0] == "not":
+        return ("out", set(x[1]))
+    return ("in", {x})
+
+
+def _refine(prev, outcome):
+    """the conjunction of two outcomes of one test, or None when they exclude each other"""
+    if prev == outcome:
+        return prev
+    if isinstance(prev, bool) or isinstance(outcome, bool):
+        return None
+    (ka, sa), (kb, sb) = _as_set(prev), _as_set(outcome)
+    if ka == "in" and kb == "in":
+        s = sa & sb
+    elif ka == "in":
+        s = sa - sb
+    elif kb == "in":
+        s = sb - sa
+    else:
+        return ("not", tuple(sorted(sa | sb, key=str)))
+    if not s:
+        return None
+    if len(s) == 1:
+        return next(iter(s))
+    # keep a stable order: that of whichever operand listed them
+    order = [x for x in (list(prev[1]) if isinstance(prev, tuple) else [prev]) + (list(outcome[1]) if isinstance(outcome, tuple) else [outcome]) if x in s]
+    seen = []
+    for x in order:
+        if x not in seen:
+            seen.append(x)
+    return ("oneof", tuple(seen))
 
 
 def _compatible(prev, outcome):
